@@ -16,6 +16,7 @@ EXPLANATION = (
     "delta reader returned an error.  R4: panic sites reachable from Storage::* / Manager::* / DeltaReceiver::* are discharged or "
     "reviewed.  R6: the comparisons Storage decides on carry their exact operators (newest >= tick refuses; base lookup for every tick >= 0; strictly older snapshots dropped; crc != computed refuses; adoption on equality).  R5: the receiver refuses a duplicated part before inserting it (the reviewed assert rests on it; shared with C12 R3).  Not decided: item-for-item equality over all histories of losses (history level)."
 )
+EXPLANATION += ("  Round 4: R5b (shared with C12 R3) a restarted transfer passes init_delta(); R7 (shared with C09 R4) the sender's update set only grows.")
 ASSUMPTIONS = ["the sender follows the storage API (set_delta_tick before add_snap)", "reviewed table lines confirmed by reading the code"]
 TABLES = ["snapshot", "packer", "buffer", "common", "gamenet", "looptable", "postfix"]
 ST = "libtw2_snapshot::storage::Storage::"
